@@ -228,8 +228,48 @@ func (f *Formatter) formatArgument(arg *ast.Argument) {
 	f.writeString(arg.Value.String())
 }
 
+// walkDirectiveList collects the variables used in directives of fields and fragments
+// together with the types the directives declare for them
+func (f *Formatter) walkDirectiveList(s ast.SelectionSet, res map[string]string) {
+	add := func(directives ast.DirectiveList) {
+		for _, d := range directives {
+			def := d.Definition
+			if def == nil && f.schema != nil {
+				def = f.schema.Directives[d.Name]
+			}
+			if def == nil {
+				continue
+			}
+			for _, a := range d.Arguments {
+				if a.Value == nil || a.Value.Kind != ast.Variable {
+					continue
+				}
+				if ad := def.Arguments.ForName(a.Name); ad != nil {
+					res[a.Value.Raw] = ad.Type.String()
+				}
+			}
+		}
+	}
+	for _, selection := range s {
+		switch sel := selection.(type) {
+		case *ast.Field:
+			add(sel.Directives)
+			f.walkDirectiveList(sel.SelectionSet, res)
+		case *ast.InlineFragment:
+			add(sel.Directives)
+			f.walkDirectiveList(sel.SelectionSet, res)
+		case *ast.FragmentSpread:
+			add(sel.Directives)
+			if sel.Definition != nil {
+				f.walkDirectiveList(sel.Definition.SelectionSet, res)
+			}
+		}
+	}
+}
+
 func (f *Formatter) walkArgumentList(s ast.SelectionSet) map[string]string {
 	res := make(map[string]string)
+	f.walkDirectiveList(s, res)
 	for _, field := range common.SelectionSetToFields(s, nil) {
 		for _, a := range field.Arguments {
 			if field.Definition == nil || field.Definition.Arguments == nil {
